@@ -1,6 +1,6 @@
 """C25 RRDP updates reproduce the server state or report failure (K1, K4 clauses)."""
 import re
-from lib.facts import Site
+from lib.facts import norm, Site
 from lib.rules import G, require_guards, arg_desc, who_calls, arg_path, agg_sites, fmt_path
 from lib.tables import enumerate_paths, describe
 
@@ -187,4 +187,35 @@ def rule_update(ctx):
     ctx.floor('K1', 'Ok(true) in snapshot_update', len(oks), 1)
 
 
-RULES = [rule_hash_gates, rule_calc_deltas, rule_update]
+def rule_check_deltas(ctx):
+    """Every delta of the notification that the client has already recorded is compared; a changed hash forces a snapshot."""
+    b = ctx.body('collector::rrdp::update::Notification::check_deltas')
+    # the loop runs over ALL deltas: into_iter(deltas(content)) with no adaptor in between
+    nxt = [s for s in b.calls('re:Iterator>?::next$')]
+    ctx.floor('K4', 'loop over the notified deltas', len(nxt), 1)
+    for s in nxt:
+        o = b.origin_of_operand(s.term['args'][0])
+        cs = [norm(c.callee) for c in o.calls()]
+        adapt = [c for c in cs if re.search(r'::(skip_while|skip|filter|take|take_while|step_by|filter_map|rev|chain)$', c)]
+        src = [c for c in cs if c.endswith('NotificationFile::deltas')]
+        ctx.check(bool(src) and not adapt, 'K4', 'check_deltas:iterates-all-notified-deltas',
+                  'check_deltas looks at every delta of the notification file',
+                  'check_deltas iterates over %s: deltas the client has already applied are no longer compared with the recorded '
+                  'hashes, so a server that rewrites history (delta mutation) is followed instead of forcing a snapshot' % (adapt or cs),
+                  loc=s.loc())
+    n = 0
+    for p in enumerate_paths(b, ctx.facts, max_visits=2):
+        cm = p.cond_map()
+        got = [labs for v, labs in cm.items() if re.search(r'HashMap.*::get\(', v) and 'delta_state' in v]
+        ne = [labs for v, labs in cm.items() if (v.startswith('cmp(') or 'PartialEq' in v) and 'hash' in v.lower()]
+        if got and got[0] == {'Some'} and ne and p.kind == 'return':
+            differ = ne[0] not in ({'Equal'}, {'false'}) if ne[0] <= {'Equal', 'Less', 'Greater', 'Unordered'} else ne[0] == {'true'}
+            if differ:
+                n += 1
+                ctx.check('DeltaMutation' in (p.outcome or ''), 'K4', 'check_deltas:hash-differs=>DeltaMutation',
+                          'a recorded delta whose hash changed yields Err(DeltaMutation)',
+                          'a recorded delta whose hash changed yields %s' % p.outcome, loc=p.ret_site.loc() if p.ret_site else None)
+    ctx.floor('K4', 'mutation rows of check_deltas', n, 1)
+
+
+RULES = [rule_check_deltas, rule_hash_gates, rule_calc_deltas, rule_update]
